@@ -97,6 +97,14 @@ def run(tier):
         for fl in ([], ['ELLIPSIS']):
             events.append({'k': 'check_output', 'got': list(g), 'want': list(w), 'flags': fl,
                            'res': matchlib.impl_check_output(gs, ws, matchlib.runstate(set(fl)))})
+    # long texts with 9..14 wildcards
+    longs = matchlib.derive_long_pairs(rng, 120 if tier == 'quick' else 1500)
+    for g, w in longs:
+        gs, ws = matchlib.to_str(g), matchlib.to_str(w)
+        events.append({'k': 'ellipsis', 'got': list(g), 'want': list(w), 'flags': [], 'res': matchlib.impl_ellipsis(gs, ws)})
+        events.append({'k': 'check_output', 'got': list(g), 'want': list(w), 'flags': ['ELLIPSIS'],
+                       'res': matchlib.impl_check_output(gs, ws, matchlib.runstate({'ELLIPSIS'}))})
+    out.extra['long_pairs'] = len(longs)
     bad = matchlib.validate_trace(events, out, 'random-longer')
     for e in bad[:10]:
         out.violation({'kind': 'trace_' + e['k']},
